@@ -209,9 +209,55 @@ def handleRace (vh vu : Variant) (case : Nat) (b : String) (j : Json) : IO Unit 
     (if spec then "" else s!"{m} concurrent callers on a {b} breaker whose timeout had elapsed: between {lo} and {hi} were let through")
     (toJson [mlo, mhi])
 
+/-- kind "lifecycle": the unification breaker as the discovery path uses it, through LifecycleUnifier.UnifyModels.
+    One harness step `U` (live context) or `C` (context already cancelled: an abandoned round) is, for the breaker,
+    "ask permission; if admitted, the unification runs and reports success" — the inner unifier does not look at
+    the context. `F` is a failure report, anything else a tick. The model runs the expanded history; the
+    observation compared is the one after the last expanded op of each step. After the history the endpoint
+    works again: the breaker must end closed (the never-stuck clause of the property). -/
+def lifecycleRun (sim : Sim σ) : σ → List Int → List Step × σ
+  | s, [] => ([], s)
+  | s, op :: ops =>
+    let (o, s') : Step × σ :=
+      if op == -1 then
+        let r := sim.m.step s .fail
+        (⟨⟨r.2, sim.m.phase r.1, sim.m.failures r.1⟩, (sim.extra r.1).1, (sim.extra r.1).2⟩, r.1)
+      else if op == -4 || op == -5 then
+        let r := sim.m.step s .ask
+        let s2 := if r.2 == some true then (sim.m.step r.1 .succ).1 else r.1
+        (⟨⟨r.2, sim.m.phase s2, sim.m.failures s2⟩, (sim.extra s2).1, (sim.extra s2).2⟩, s2)
+      else
+        let r := sim.m.step s (.tick op.toNat)
+        (⟨⟨none, sim.m.phase r.1, sim.m.failures r.1⟩, (sim.extra r.1).1, (sim.extra r.1).2⟩, r.1)
+    let (rest, fin) := lifecycleRun sim s' ops
+    (o :: rest, fin)
+
+def handleLifecycle (vu : Variant) (case : Nat) (j : Json) : IO Unit := do
+  let impl := jget j "impl"
+  if jstr (jget impl "start_err") != "" then
+    emit case false true "start-error" "" (jstr (jget impl "start_err")); return
+  let sim := unifierSim vu
+  let ops := jintList (jget j "ops")
+  let rops := jintList (jget impl "recovery_ops")
+  let obs := stepsOfInts (jintList (jget impl "obs"))
+  let robs := stepsOfInts (jintList (jget impl "recovery_obs"))
+  let (m1, s1) := lifecycleRun sim sim.init ops
+  let (m2, _) := lifecycleRun sim s1 rops
+  -- the answer of a unify step is compared as admitted / refused; the counters as the breaker reports them
+  let agree := m1 == obs && m2 == robs
+  let endClosed := (robs.getLast?.map (·.obs.phase)) == some Phase.closed
+  let abandoned := ops.any (· == -5)
+  let opened := obs.any (fun o => o.obs.phase != .closed)
+  emit case agree endClosed
+    (if !opened then "trivial" else s!"unifier.lifecycle{if abandoned then ".abandoned-rounds" else ""}")
+    (if endClosed then "" else "unifier-stuck-after-abandoned-rounds")
+    (if agree && endClosed then "" else s!"ops {ops} (−1 fail, −4 unify, −5 unify with a cancelled context, else tick ns): after the endpoint worked again for three rounds the breaker reports phase {(robs.getLast?.map (fun o => natOfPhase o.obs.phase))}; steps {(obs ++ robs).map stepInts}; model {(m1 ++ m2).map stepInts}")
+
 def handle (vh vu : Variant) (j : Json) : IO Unit := do
   let case := jnat (jget j "case")
   let kind := jstr (jget j "kind")
+  if kind == "lifecycle" then
+    handleLifecycle vu case j; return
   let b := jstr (jget j "b")
   match kind with
   | "hist" =>
